@@ -11,7 +11,7 @@ import sys
 from engine import Check, tlc_ok, validate_traces, MachineryError
 
 COMPS = ['', '.', '..', 'a', 'b', 'a.b', 'a b']
-ROOTS = ['srcdir', 'builddir', 'absolute', 'prefix']
+ROOTS = ['srcdir', 'builddir', 'absolute', 'prefix', 'bindir', 'mandir']
 
 
 def cfg(max_raw, max_ops, mode):
@@ -37,9 +37,18 @@ def load_impl():
     from bfg9000.path import Root, InstallRoot, DestDir, commonprefix, \
         uniquetrees
     roots = {'srcdir': Root.srcdir, 'builddir': Root.builddir,
-             'absolute': Root.absolute, 'prefix': InstallRoot.prefix}
+             'absolute': Root.absolute, 'prefix': InstallRoot.prefix,
+             'bindir': InstallRoot.bindir, 'mandir': InstallRoot.mandir}
+    # install directories given relative to other install directories, as in
+    # the default layout: bindir = <exec_prefix>/bin d, exec_prefix = <prefix>,
+    # mandir = <datadir>/man, datadir = <prefix>/share
     variables = {Root.srcdir: '/s', Root.builddir: '/b b',
-                 InstallRoot.prefix: '/usr/p', DestDir.destdir: '/d'}
+                 InstallRoot.prefix: '/usr/p', DestDir.destdir: '/d',
+                 InstallRoot.exec_prefix: PosixPath('', InstallRoot.prefix),
+                 InstallRoot.bindir: PosixPath('bin d',
+                                               InstallRoot.exec_prefix),
+                 InstallRoot.datadir: PosixPath('share', InstallRoot.prefix),
+                 InstallRoot.mandir: PosixPath('man', InstallRoot.datadir)}
     return dict(posix=PosixPath, windows=WindowsPath, roots=roots,
                 variables=variables, commonprefix=commonprefix,
                 uniquetrees=uniquetrees)
@@ -86,7 +95,13 @@ def guarded(fn):
 
 def str_event(impl, p):
     import re
-    s = p.string(impl['variables'])
+    v = impl['variables']
+    if p.destdir and not isinstance(v.get(p.root, ''), str):
+        # (a staged path below a directory that is itself given relative to
+        # another one is realised by the backends through their own
+        # variables, never through string(): not asked)
+        v = {k: x for k, x in v.items() if k.name != 'destdir'}
+    s = p.string(v)
     return {'op': 'Str', 'str': [x for x in re.split(r'[/\\]', s) if x]}
 
 
